@@ -46,6 +46,11 @@ def real_lib(case):
     """run the library function on one text; tokenise input and output with the library's reader"""
     text, req = case
     out = {"pin": g6.parse_text(text)}
+    if req.get("asked_before"):
+        r0 = _lib_call(text, req)
+        if r0[0] == "ok" and isinstance(r0[1], tuple) and len(r0[1]) == 2 and isinstance(r0[1][1], dict):
+            r0[1][1].clear()
+            r0[1][1]["edited by the caller"] = "!"
     r = _lib_call(text, req)
     if r[0] == "err":
         out["res"] = ("err", r[1])
@@ -202,6 +207,10 @@ def build_lib_inputs(ctx, res):
         blocks = g6.gen_blocks(rng)
         text = g6.serialise(rng, blocks, stats)
         req = g6.choose_request(rng, blocks)
+        if rng.random() < 0.3:
+            # the caller has made this very call before and has edited what it got back (the returned mapping is the
+            # caller's to change): the second answer must be the same as a first one
+            req = dict(req, asked_before=True)
         inputs.append(("generated", text, req))
     for k, v in stats.items():
         res.dist["value-form:" + k] = v
@@ -481,6 +490,8 @@ def run(ctx):
         res.case(short_hash([text if not stored else stored, req]), nontrivial=rewritten)
         res.count("family:" + fam.split(":")[0])
         res.count("mode:" + req["mode"])
+        if req.get("asked_before"):
+            res.count("asked-before-and-result-edited")
         res.count("outcome:" + ("rewritten" if rewritten else m["model"].split(" ")[0] + ("" if not m["model"].startswith("err") else ":" + m["model"][4:])))
         if req["mode"] == "replace":
             res.count("alphabet:" + ("default" if req.get("defaults") else req.get("alphabet", "?")))
